@@ -9,7 +9,7 @@
   histories.  Proved: crop, get, set, push, unshift, pop, shift, align (incl. the 1024-byte block
   rotation of mpt_memrev), resize, string (ok + refusal cases, memory bounds), the history theorem over
   these operations, prepare, find (first element-aligned match or documented refusal), and the C++
-  `io::queue` wrappers push/unshift/pop/shift/write.  Correspondence only: `io::queue::read/peek`.
+  `io::queue` wrappers push/unshift/pop/shift/write.  Correspondence only: `io::queue::read/peek`, `pipe<T>::elements()`, `mpt_queue_load/save` (`load_statement`, `save_statement`).
 -/
 import MptModel.Lemmas.Ring4
 
@@ -329,5 +329,19 @@ theorem cxx_write (r : Ring) (h : r.WF) (part : Nat) (hp : 0 < part) (elems : Li
   xwrite_spec r h part hp elems he
 
 example : (Ring.make 8 6 [1, 2, 3, 4]).find [3, 4] = .ok (some 0) := by decide
+
+/-! ### Stated, not proved (tied to the code by the correspondence run only) -/
+
+/-- `mpt_queue_load(len)` appends the first `min avail cap` bytes the descriptor offers (cap = free space,
+    or `len` when `0 < len < free`) and refuses a full queue -/
+def load_statement : Prop :=
+  ∀ (r : Ring) (len : Nat) (bytes : List Byte), r.WF → r.len < r.store.length →
+    let cap := if len = 0 ∨ len ≥ r.store.length - r.len then r.store.length - r.len else len
+    ∃ r', r.load len bytes = .ok (r', min bytes.length cap) ∧ r'.WF ∧
+      r'.content = r.content ++ bytes.take (min bytes.length cap)
+
+/-- `mpt_queue_save` writes the whole content in order and leaves the queue empty -/
+def save_statement : Prop :=
+  ∀ (r : Ring), r.WF → ∃ r', r.save = .ok (r', r.content) ∧ r'.WF ∧ r'.content = []
 
 end Mpt.C13
